@@ -459,6 +459,10 @@ def run(ck: Check, repo: Repo) -> None:
     rule_concluded(ck, repo)
     rule_output_declaration(ck, repo)
     rule_unexamined_files(ck, repo)
+    # 'exactly the licence identifiers that lint attributes to the file': the per-identifier table of FileReport.generate
+    # (every identifier of every expression is recorded in licenses_in_file) (shared with C06-R1)
+    from . import c06
+    c06.rule_identifier_table(ck, repo, "R10")
     # 'a File section for every covered file and for no other file': the covered set (shared with C03-R1/R2)
     from . import c03
     from ..fold import Folder
